@@ -293,4 +293,38 @@ def declaredBeforeUse : List FunDecl → Bool
     let later := fd.name :: rest.map (·.name)
     !(rest.map (·.name)).contains fd.name && (calleesOfFun fd).all (fun c => !later.contains c) && declaredBeforeUse rest
 
+
+/-! ### `restricted`: symbols an array size (or scalar-set size) depends on, as the *builder* computes them
+    (StatementBuilder::collectDependencies, src/StatementBuilder.cpp:50-71: a work list over the identifiers read and,
+    for variables, the identifiers read by their initialisers; function bodies are not looked into, and at that time no
+    `depends` set has been computed yet, which is why the environment below is empty) -/
+
+/-- a global or template-level variable with its initialiser -/
+structure VarDecl where
+  sym : Sym
+  init : Expr
+deriving Repr, Inhabited
+
+/-- identifiers read by the initialisers of the variable(s) named `s` -/
+def initReads (cfg : Cfg) (D : List VarDecl) (s : Sym) : List Sym :=
+  match D with
+  | [] => []
+  | d :: rest => (if d.sym = s then collectReads cfg [] false d.init else []) ++ initReads cfg rest s
+
+/-- the work-list loop; `none` = fuel exhausted (never observed: fuel is the number of symbols + work items) -/
+def closeDeps (cfg : Cfg) (D : List VarDecl) : Nat → List Sym → List Sym → Option (List Sym)
+  | 0, [], deps => some deps
+  | 0, _ :: _, _ => none
+  | _ + 1, [], deps => some deps
+  | fuel + 1, s :: work, deps =>
+    if deps.contains s then closeDeps cfg D fuel work deps
+    else closeDeps cfg D fuel (work ++ initReads cfg D s) (s :: deps)
+
+/-- `collectDependencies(restricted, e)` starting from an already collected set -/
+def collectDependencies (cfg : Cfg) (D : List VarDecl) (fuel : Nat) (restricted : List Sym) (e : Expr) : Option (List Sym) :=
+  closeDeps cfg D fuel (collectReads cfg [] false e) restricted
+
+/-- TypeChecker::visitProcess: no unbound parameter may be restricted -/
+def processOk (unbound restricted : List Sym) : Bool := unbound.all (fun p => !restricted.contains p)
+
 end UtapModel.Effect
